@@ -53,7 +53,7 @@ Proof.
   - destruct (negb (phase_idle (phase_ s))); [discriminate|].
     destruct (nth_error (inflight s) i) as [[[[v vo] vn] hv]|]; [|discriminate].
     destruct (_ <=? _); [discriminate|].
-    destruct (f_setoffset (txl s) (pts s)); [|discriminate].
+    destruct (f_setoffset_gen _ (txl s) (pts s)); [|discriminate].
     destruct (negb _); [discriminate|].
     apply bind_ok in E as (a1 & E1 & E). apply bind_ok in E as (a2 & E2 & E).
     apply Q in E. subst s'. unfold precommitted. cbn [asize committed pbuf].
@@ -66,7 +66,7 @@ Proof.
     destruct (nth_error (vls s) v); [|discriminate]. apply Q in E; subst s'; exact R.
   - destruct (phase_ s); try discriminate. destruct (negb _); [discriminate|].
     apply bind_ok in E as (a & Ea & E).
-    destruct (f_setoffset (cml s) (44 * committed s)); [|discriminate].
+    destruct (f_setoffset_gen _ (cml s) (44 * committed s)); [|discriminate].
     apply Q in E. subst s'. unfold precommitted. cbn [asize committed pbuf].
     assert (a_size a = asize s).
     { destruct (c_ahtsync (s_cfg s)); [apply aht_sync_size in Ea; exact Ea|].
@@ -87,8 +87,9 @@ Proof.
     destruct (step_Inv _ _ _ _ _ _ I V E) as (h' & d' & I' & V' & _). eauto.
   - destruct IH as (Ec & h & d & I & V).
     destruct (recover_ok H H_len _ _ _ _ _ upto I V Cr)
-      as (s2 & c' & rs & E2 & _ & _ & _ & _ & I2 & _ & Ecfg & _ & _ & _ & _ & _ & _ & _ & _ & _ & V2 & _).
-    rewrite Ec in E2. assert (s2 = s') by congruence. subst s2. split; [congruence|]. eauto.
+      as [(_ & E2)|(_ & s2 & c' & rs & E2 & _ & _ & _ & _ & I2 & _ & Ecfg & _ & _ & _ & _ & _ & _ & _ & _ & _ & V2 & _)];
+      rewrite Ec in E2; [congruence|].
+    assert (s2 = s') by congruence. subst s2. split; [congruence|]. eauto.
 Qed.
 
 (* ---- a reader of logs that start with the encodings of c chained transactions ---- *)
@@ -184,9 +185,8 @@ Proof.
 Qed.
 
 (* ================= crash safety ================= *)
-Theorem crash_safety c nv s im :
-  c_prealloc c = false -> 0 < c_thld c -> reach c nv s -> crash s im ->
-  exists s', recover H c im = Ok s' /\ reach c nv s' /\
+(* what a successful recovery guarantees *)
+Definition recovered_ok (s : st) (im : images) (s' : st) : Prop :=
     acked s <= committed s' /\ acked s' = committed s' /\ phase_ s' = PIdle /\
     asize s' = precommitted s' /\
     durable (txl s') = i_txl im /\ durable (cml s') = i_cml im /\ map durable (vls s') = i_vls im /\
@@ -194,13 +194,24 @@ Theorem crash_safety c nv s im :
        tx_at (i_txl im) (i_cml im) k = tx_at (durable (txl s)) (durable (cml s)) k) /\
     history_ok H (i_txl im) (i_cml im) (committed s') /\
     (forall k, 1 <= k <= committed s' -> values_durable_for H s' k).
+
+(* the size check of ahtree.OpenWith: the tree's digest log is shorter than its commit log says *)
+Definition aht_check_fails (im : images) : Prop := len (i_ahd im) < 32 * (len (i_ahc im) / 12).
+
+Theorem crash_safety c nv s im :
+  c_prealloc c = false -> 0 < c_thld c -> reach c nv s -> crash s im ->
+  (aht_check_fails im /\ recover H c im = Err ECorruptedData) \/
+  (~ aht_check_fails im /\ exists s', recover H c im = Ok s' /\ reach c nv s' /\ recovered_ok s im s').
 Proof.
   intros Hp Ht R Cr. destruct (reach_Inv _ _ _ Hp Ht R) as (Ec & h & d & I & V).
   unfold recover.
   destruct (recover_ok H H_len _ _ _ _ _ (N.to_nat (len (i_txl im))) I V Cr)
-    as (s' & c' & rs & E & Hc1 & Hc2 & Ecm & Eack & I' & Eph & Ecfg & Etx & Evl & Ecd & Ecp & Ecb & Tcm & Ttx & Ltx & Hup & V' & _).
-  rewrite Ec in E. exists s'. split; [exact E|]. split; [eapply r_crash; eauto|].
-  pose proof (v_ack _ _ _ _ _ I) as Hack.
+    as [(Hbad & E)|(Hgood & s' & c' & rs & E & Hc1 & Hc2 & Ecm & Eack & I' & Eph & Ecfg & Etx & Evl & Ecd & Ecf & Hidle & Tcm & Ttx & Ltx & Hup & V' & _)];
+    rewrite Ec in E.
+  { left. split; [exact Hbad|exact E]. }
+  right. split; [unfold aht_check_fails; lia|].
+  exists s'. split; [exact E|]. split; [eapply r_crash; eauto|].
+  pose proof (v_ack _ _ _ _ _ I) as Hack. unfold recovered_ok.
   split; [lia|]. split; [congruence|]. split; [exact Eph|].
   destruct (Inv_read _ _ _ _ I') as (A' & B').
   split; [|split; [rewrite Etx; reflexivity|split; [exact Ecd|split]]].
